@@ -60,6 +60,7 @@ package vec
 //@   model real
 //@   ensures [len]   len(result) == tlen(xss, len(xss))
 //@   ensures [fresh] fresh(result)
+//@   ensures [elems] forall k in 0..len(xss), j in 0..len(xss[k]) :: result[tlen(xss, k) + j] == xss[k][j]
 //@   loop 1 (xs) invariant total == tlen(xss, _k) && total >= 0
-//@   loop 2 (xs) invariant pos >= 0 && pos == tlen(xss, _k) && len(out) == total && total == tlen(xss, len(xss)) && fresh(out)
+//@   loop 2 (xs) invariant pos >= 0 && pos == tlen(xss, _k) && len(out) == total && total == tlen(xss, len(xss)) && fresh(out) && (forall k in 0.._k, j in 0..len(xss[k]) :: tlen(xss, k) + j < tlen(xss, k+1) && out[tlen(xss, k) + j] == xss[k][j])
 //@   assigns nothing
